@@ -473,6 +473,17 @@ impl<K, V> TreeBin<K, V> {
                     return element;
                 }
                 element = element_deref.node.next.load(Ordering::SeqCst, guard);
+                if element.is_null()
+                    && bin_deref.lock_state.load(Ordering::SeqCst) & (WAITER | WRITER) == 0
+                {
+                    // we reached the end of the list, but the writer we were stepping around
+                    // is gone. a removal unlinks its node from this list _before_ it takes the
+                    // write lock to remove it from the tree (`remove_tree_node`), so the list
+                    // alone must not make us answer "absent" now: readers on the tree path may
+                    // still find that node. start over; without a writer the next round
+                    // searches the tree.
+                    element = bin_deref.first.load(Ordering::SeqCst, guard);
+                }
             } else if bin_deref
                 .lock_state
                 .compare_exchange(s, s + READER, Ordering::SeqCst, Ordering::Relaxed)
